@@ -104,6 +104,25 @@ def make(cfg):
     return Monitor(cfg)
 
 
+def type_product_job(job):
+    """Every child type x value type of the version's tables: present, set, set again, req."""
+    version, ctypes = job
+    viols = []
+    n = 0
+    for ct in ctypes:
+        for vt in range(0, R.V_MAX[version] + 1):
+            n += 1
+            mon = Monitor({"version": version})
+            hist = [[1, 255, 0, 0, 17, "2.0"], [1, 5, 0, 0, ct, "d"], [1, 5, 1, 0, vt, "v"], [1, 5, 1, 0, vt, "w"], [1, 5, 2, 0, vt, ""], [1, 6, 1, 0, vt, "x"]]
+            for i, ev in enumerate(hist):
+                v = mon.apply(ev)
+                for k, w, _x in v:
+                    viols.append((k + "|typeproduct", f"child type {ct} value type {vt}: {w}", {"cfg": {"version": version}, "history": hist[: i + 1], "extra": None}))
+                if v:
+                    break
+    return n, viols
+
+
 def run(ctx: core.Ctx) -> core.Report:
     if ctx.quick:
         plan = [(v, 5) for v in R.VERSIONS]
@@ -119,13 +138,22 @@ def run(ctx: core.Ctx) -> core.Report:
         tot["per_cfg"] += res["per_cfg"]
         tot["samples"] += res["samples"]
         tot["violations"] += res["violations"]
+    tjobs = []
+    for v in R.VERSIONS:
+        cts = list(range(0, R.S_MAX[v] + 1))
+        for i in range(0, len(cts), 4):
+            tjobs.append((v, cts[i : i + 4]))
+    tres = core.pmap(type_product_job, tjobs, ctx.workers, chunksize=1)
+    tcount = sum(r[0] for r in tres)
+    tot["violations"] += [core.Violation(k, w, rep) for r in tres for k, w, rep in r[1]]
     cov = {
         "states": tot["states"],
-        "transitions": tot["transitions"],
-        "traces_validated_against_impl": tot["transitions"],
+        "transitions": tot["transitions"] + 6 * tcount,
+        "traces_validated_against_impl": tot["transitions"] + 6 * tcount,
+        "type_product_cases": tcount,
         "exhaustive": False,
         "distinct_nontrivial_transitions": tot["nontrivial_transitions"],
-        "rule": "all histories up to the stated depth over the alphabet; non-trivial = a step referring to a missing node/child",
+        "rule": "all histories up to the stated depth over the alphabet, plus a 6-step history for every child type x value type of each version's tables; non-trivial = a step referring to a missing node/child",
         "bounds": {"per_cfg": tot["per_cfg"], "alphabet_size": len(alphabet("2.2", thorough))},
         "samples": ctx.pick(tot["samples"], 3),
     }
